@@ -3,11 +3,8 @@ open Martian.Props.C09
 #print axioms ledger
 #print axioms never_exceeds_grant
 #print axioms every_emission_fits
-#print axioms rstep_accepted
 #print axioms frame_within_max
 #print axioms emitted_was_accepted
 #print axioms credit_returned_exact
 #print axioms credit_is_flow_controlled_length
 #print axioms no_eligible_frame_stranded
-#print axioms okStepB_sound
-#print axioms okRunB_sound
